@@ -345,8 +345,21 @@ func (g *Gen) genFor(d int) []L.Stmt {
 		a, b := g.fresh("a"), g.fresh("b")
 		g.class("iterator_first_value_any")
 		itf := fn(nil, false, blk(assign1(name(ps), bin("+", name(ps), num(1))), ret(idx(name(seq), name(ps)), name(ps))))
-		return []L.Stmt{&L.DoStmt{Body: blk(local1(seq, t), local1(ps, num(0)), &L.LocalFuncStmt{Name: it, Fn: itf},
-			&L.GenForStmt{Names: []string{a, b}, Exprs: []L.Expr{name(it)}, Body: blk(emit(name(a), name(b)))}, emit(str("loop ended at"), name(ps)))}}
+		// the explist has one or two expressions (the missing state / control values are nil, whatever the registers held
+		// before), and 1..4 loop variables
+		dirty := &L.DoStmt{Body: blk(local([]string{"dr1", "dr2", "dr3", "dr4", "dr5", "dr6"}, num(101), num(102), num(103), num(104), num(105), num(106)))}
+		names := []string{a, b, g.fresh("c"), g.fresh("d")}[:1+g.n(4, "nloopvars")]
+		var shown []L.Expr
+		for _, n := range names {
+			shown = append(shown, name(n))
+		}
+		exprs := []L.Expr{name(it)}
+		if g.n(2, "withstate") == 0 {
+			exprs = append(exprs, str("state"))
+		}
+		itf = fn([]string{"st", "ctl"}, false, blk(assign1(name(ps), bin("+", name(ps), num(1))), ifs(bin("==", name(ps), num(1)), blk(emit(str("first call gets"), name("st"), name("ctl"))), nil), ret(idx(name(seq), name(ps)), name(ps), str("third"))))
+		return []L.Stmt{&L.DoStmt{Body: blk(local1(seq, t), local1(ps, num(0)), &L.LocalFuncStmt{Name: it, Fn: itf}, dirty,
+			&L.GenForStmt{Names: names, Exprs: exprs, Body: blk(emit(shown...))}, emit(str("loop ended at"), name(ps)))}}
 	case 0, 1:
 		// ipairs over an array
 		var te L.Expr
